@@ -249,18 +249,22 @@ def proj_package(pkg, top_suffix: Optional[str] = None) -> dict:
     mods = {}
     order = []
     leaves = {}
+    exts = []
     for em in pkg.ext_modules:
-        leaves[em.name.name] = [{"n": p.signal, "w": next(s.width for s in em.signals if s.name == p.signal)} for p in em.ports]
+        ports = [{"n": p.signal, "w": next((s.width for s in em.signals if s.name == p.signal), 0)} for p in em.ports]
+        leaves[em.name.name] = ports
+        exts.append({"name": em.name.name, "domain": em.name.domain, "ports": ports})
     for m in pkg.modules:
         insts = []
         for i in m.instances:
             which = i.module.WhichOneof("to")
             if which == "local":
-                of = {"k": "mod", "ref": i.module.local}
+                of = {"k": "mod", "ref": i.module.local, "domain": ""}
             else:
                 of = {"k": "ext", "ref": i.module.external.name, "domain": i.module.external.domain}
-                if i.module.external.domain == "hdl21.primitives" and i.module.external.name in PRIM_PORTS:
-                    leaves.setdefault(i.module.external.name, [{"n": p, "w": 1} for p in PRIM_PORTS[i.module.external.name]])
+                if i.module.external.name not in leaves:
+                    # a primitive: its terminals are those the instance connects (C06's PkgWF checks them against the spec's table)
+                    leaves[i.module.external.name] = [{"n": c.portname, "w": 1} for c in i.connections]
             insts.append({"n": i.name, "of": of, "conns": [{"p": c.portname, "t": proj_target(c.target)} for c in i.connections]})
         mods[m.name] = {"sigs": [{"n": s.name, "w": s.width} for s in m.signals],
                         "ports": [{"n": p.signal, "dir": DIRS.get(p.direction, "NONE")} for p in m.ports],
@@ -270,4 +274,4 @@ def proj_package(pkg, top_suffix: Optional[str] = None) -> dict:
     if top_suffix is not None:
         cands = [n for n in order if n == top_suffix or n.endswith("." + top_suffix)]
         top = cands[-1] if cands else ""
-    return {"mods": mods, "order": order, "leaves": leaves, "top": top}
+    return {"mods": mods, "order": order, "leaves": leaves, "exts": exts, "top": top}
